@@ -1305,8 +1305,11 @@ func mergeChunks(chunks []*MessageChunk) ([]byte, error) {
 
 	var b []byte
 	var seqnr uint32
-	for _, c := range chunks {
-		if c.SequenceHeader.SequenceNumber == seqnr {
+	for i, c := range chunks {
+		// a chunk that repeats the number of the chunk before it is a duplicate;
+		// the first chunk has no predecessor and is always kept (its number may
+		// be 0: at channel start and after the wrap-around, OPC UA Part 6, 6.7.2.4)
+		if i > 0 && c.SequenceHeader.SequenceNumber == seqnr {
 			continue // duplicate chunk
 		}
 		seqnr = c.SequenceHeader.SequenceNumber
